@@ -6,19 +6,144 @@ use std::sync::{Arc, Mutex as StdMutex};
 use std::time::Duration;
 
 enum Inner<T> {
-  Real(std::thread::JoinHandle<T>),
-  Sim { ctx: Ctx, task: usize, slot: Arc<StdMutex<Option<std::thread::Result<T>>>> },
+  Real(std::thread::JoinHandle<T>, Thread),
+  Sim { ctx: Ctx, task: usize, slot: Arc<StdMutex<Option<std::thread::Result<T>>>>, thread: Thread },
 }
 
 pub struct JoinHandle<T>(Inner<T>);
+
+// ---- thread identity and parking ------------------------------------------------------------
+
+/// `std::thread::ThreadId` of a real thread, or (run, task) of a simulated one. OS threads are
+/// reused between tasks, so a task's identity must not be the OS thread's.
+#[derive(Clone, Copy, PartialEq, Eq, Hash, Debug)]
+pub enum ThreadId {
+  Real(std::thread::ThreadId),
+  Sim(u32, usize),
+}
+
+struct Parker {
+  token: crate::sync::Mutex<bool>,
+  cv: crate::sync::Condvar,
+}
+
+#[derive(Clone)]
+enum ThreadInner {
+  Real(std::thread::Thread),
+  Sim { run: u32, task: usize, name: Option<String>, parker: Arc<Parker> },
+}
+
+/// Facade for `std::thread::Thread` (handle: id, name, unpark)
+#[derive(Clone)]
+pub struct Thread(ThreadInner);
+
+impl Thread {
+  pub fn id(&self) -> ThreadId {
+    match &self.0 {
+      ThreadInner::Real(t) => ThreadId::Real(t.id()),
+      ThreadInner::Sim { run, task, .. } => ThreadId::Sim(*run, *task),
+    }
+  }
+  pub fn name(&self) -> Option<&str> {
+    match &self.0 {
+      ThreadInner::Real(t) => t.name(),
+      ThreadInner::Sim { name, .. } => name.as_deref(),
+    }
+  }
+  pub fn unpark(&self) {
+    match &self.0 {
+      ThreadInner::Real(t) => t.unpark(),
+      ThreadInner::Sim { parker, .. } => {
+        let mut g = match parker.token.lock() {
+          Ok(g) => g,
+          Err(p) => p.into_inner(),
+        };
+        *g = true;
+        drop(g);
+        parker.cv.notify_one();
+      }
+    }
+  }
+}
+
+impl std::fmt::Debug for Thread {
+  fn fmt(&self, f: &mut std::fmt::Formatter<'_>) -> std::fmt::Result {
+    write!(f, "Thread({:?})", self.id())
+  }
+}
+
+static PARKERS: StdMutex<Option<std::collections::HashMap<(u32, usize), Arc<Parker>>>> = StdMutex::new(None);
+
+fn parker_of(run: u32, task: usize) -> Arc<Parker> {
+  let mut g = PARKERS.lock().unwrap_or_else(|p| p.into_inner());
+  let m = g.get_or_insert_with(std::collections::HashMap::new);
+  // forget the parkers of earlier runs now and then
+  if m.len() > 4096 {
+    m.retain(|k, _| k.0 == run);
+  }
+  m.entry((run, task)).or_insert_with(|| Arc::new(Parker { token: crate::sync::Mutex::new(false), cv: crate::sync::Condvar::new() })).clone()
+}
+
+fn sim_thread(c: &Ctx, task: usize) -> Thread {
+  let name = c.exec.lock().tasks.get(task).map(|t| t.name.clone());
+  Thread(ThreadInner::Sim { run: c.exec.serial, task, name, parker: parker_of(c.exec.serial, task) })
+}
+
+/// Facade for `std::thread::current()`
+pub fn current() -> Thread {
+  match crate::exec::ctx_even_if_panicking() {
+    Some(c) => sim_thread(&c, c.me),
+    None => Thread(ThreadInner::Real(std::thread::current())),
+  }
+}
+
+/// Facade for `std::thread::park()`: blocks until the token is set (spurious returns are allowed
+/// by std's contract; here they come from the condvar's spurious-wake-up fault)
+pub fn park() {
+  match current().0 {
+    ThreadInner::Real(_) => std::thread::park(),
+    ThreadInner::Sim { parker, .. } => {
+      let mut g = match parker.token.lock() {
+        Ok(g) => g,
+        Err(p) => p.into_inner(),
+      };
+      if !*g {
+        g = match parker.cv.wait(g) {
+          Ok(g) => g,
+          Err(p) => p.into_inner(),
+        };
+      }
+      *g = false;
+    }
+  }
+}
+
+pub fn park_timeout(dur: Duration) {
+  match current().0 {
+    ThreadInner::Real(_) => std::thread::park_timeout(dur),
+    ThreadInner::Sim { parker, .. } => {
+      let mut g = match parker.token.lock() {
+        Ok(g) => g,
+        Err(p) => p.into_inner(),
+      };
+      if !*g {
+        g = match parker.cv.wait_timeout(g, dur) {
+          Ok((g, _)) => g,
+          Err(p) => p.into_inner().0,
+        };
+      }
+      *g = false;
+    }
+  }
+}
 
 impl<T> JoinHandle<T> {
   #[track_caller]
   pub fn join(self) -> std::thread::Result<T> {
     let site = Location::caller();
     match self.0 {
-      Inner::Real(h) => h.join(),
-      Inner::Sim { ctx: c, task, slot } => {
+      Inner::Real(h, _) => h.join(),
+      Inner::Sim { ctx: c, task, slot, .. } => {
         if let Some(me) = ctx() {
           me.exec.join(me.me, task, site);
         }
@@ -33,14 +158,20 @@ impl<T> JoinHandle<T> {
   }
   pub fn is_finished(&self) -> bool {
     match &self.0 {
-      Inner::Real(h) => h.is_finished(),
+      Inner::Real(h, _) => h.is_finished(),
       Inner::Sim { slot, .. } => slot.lock().unwrap().is_some(),
+    }
+  }
+  pub fn thread(&self) -> &Thread {
+    match &self.0 {
+      Inner::Real(_, t) => t,
+      Inner::Sim { thread, .. } => thread,
     }
   }
   /// task id inside the run (None for a real thread)
   pub fn task_id(&self) -> Option<usize> {
     match &self.0 {
-      Inner::Real(_) => None,
+      Inner::Real(..) => None,
       Inner::Sim { task, .. } => Some(*task),
     }
   }
@@ -78,7 +209,8 @@ where
     *slot2.lock().unwrap() = Some(Ok(v));
   });
   let task = spawn_in(c.clone(), name, origin, site, body);
-  JoinHandle(Inner::Sim { ctx: c, task, slot })
+  let thread = sim_thread(&c, task);
+  JoinHandle(Inner::Sim { ctx: c, task, slot, thread })
 }
 
 #[track_caller]
@@ -90,7 +222,7 @@ where
   let site = Location::caller();
   match ctx() {
     Some(c) => spawn_sim(c, format!("lib@{}:{}", short(site.file()), site.line()), Origin::Library, site, f),
-    None => JoinHandle(Inner::Real(std::thread::spawn(f))),
+    None => real_handle(std::thread::spawn(f)),
   }
 }
 
@@ -104,8 +236,13 @@ where
   let site = Location::caller();
   match ctx() {
     Some(c) => spawn_sim(c, name.to_string(), Origin::Harness, site, f),
-    None => JoinHandle(Inner::Real(std::thread::spawn(f))),
+    None => real_handle(std::thread::spawn(f)),
   }
+}
+
+fn real_handle<T>(h: std::thread::JoinHandle<T>) -> JoinHandle<T> {
+  let t = Thread(ThreadInner::Real(h.thread().clone()));
+  JoinHandle(Inner::Real(h, t))
 }
 
 fn short(f: &str) -> &str {
@@ -178,7 +315,7 @@ impl Builder {
         if let Some(s) = self.stack {
           b = b.stack_size(s);
         }
-        b.spawn(f).map(|h| JoinHandle(Inner::Real(h)))
+        b.spawn(f).map(real_handle)
       }
     }
   }
